@@ -76,7 +76,7 @@ for _ in range(N // 10):
 p = GcodeParser()
 for _ in range(N // 20):
     letters = rnd.sample("XYZEFSPTIJR", rnd.randrange(1, 6))
-    args = dict((l, (None if rnd.random() < 0.1 else rnd.choice([rnd.uniform(-1e-6, 1e-6), round(rnd.uniform(-300, 300), 3), float(rnd.randrange(0, 5000))]))) for l in letters)
+    args = dict((l, (None if rnd.random() < 0.1 else rnd.choice([rnd.uniform(-1e-6, 1e-6), round(rnd.uniform(-300, 300), 3), float(rnd.randrange(0, 5000)), 0.0, 0, -0.0, 1e-7, 123456789.0]))) for l in letters)
     cmd = p.buildCommand("M204", **args)
     cases += 1
     distinct.add(cmd)
